@@ -181,7 +181,7 @@ def nontrivial(case, real):
 
 def run(tier):
   return family.run_check(
-      'C13', tier, lean_module='C13', level='translation_validation', cases=cases, execute=execute, compare=compare,
+      'C13', tier, lean_module='C13', cases=cases, execute=execute, compare=compare,
       oracle=oracle, classify=lambda c, f: f.get('class'), nontrivial=nontrivial, widen=None, floor_nontrivial=0.3,
       time_budget=200 if tier == 'quick' else 1500,
       extra_coverage={'rule': 'diffs produced by build_diff over the pairs of C10 (random edits, unrelated, '
